@@ -56,7 +56,7 @@ def build_traces(path, tier, seed):
 
     sizes = [4, 5, 6, 7, 8, 9, 11, 12, 15, 16, 19, 23, 27, 31, 32] if tier == "quick" else list(range(4, 49)) + [63, 64, 65, 96, 127, 128]
     for n in sizes:
-        x, shape = gen.record(rng, n, amp=float(10.0 ** rng.uniform(-1, 1)))
+        x, shape = gen.record(rng, n, amp=float(10.0 ** rng.choice([rng.uniform(-1, 1), rng.uniform(-1, 1), rng.uniform(-12, -7), rng.uniform(4, 8)])))
         if shape in ("zero",):
             x = rng.standard_normal(n)
         if n % 3 == 1:       # raw counts: unit-size signal on a large baseline
@@ -102,7 +102,7 @@ def build_traces(path, tier, seed):
         for k0 in ks:
             for ph in (0.0, 1.1):
                 t = np.arange(n)
-                x = np.sin(2 * np.pi * k0 * t / M + ph)
+                x = np.sin(2 * np.pi * k0 * t / M + ph) * float(rng.choice([1.0, 0.37, 1e-9, 1e-12, 3e6]))   # micro-tremor .. raw counts
                 o = eqsig.AccSignal(x, dt)
                 if (k0 + n) % 2:
                     tr = stockwell.get_max_stockwell_freq(o)
